@@ -322,7 +322,11 @@ def refract(n, nprime, S, r):
     # broadcast the square root to 2D, so that fewer very expensive sqrt ops are done
     # then, in the second term, broadcast rdotS for compatability with S and r
     # since it is needed there
-    first_term = (np.sqrt(rnorm - musq * (rnorm - rdotS * rdotS)) / rnorm)[:, np.newaxis] * r
+    # the root takes the sign of r.S, so that the refracted ray continues through the
+    # surface also when it travels against the normal (towards -z in the local frame,
+    # e.g. a lens met again after a mirror); the positive root would send it back
+    root = np.copysign(np.sqrt(rnorm - musq * (rnorm - rdotS * rdotS)), rdotS)
+    first_term = (root / rnorm)[:, np.newaxis] * r
     second_term = mu * (S - (rdotS / rnorm)[:, np.newaxis] * r)
     return first_term + second_term
 
